@@ -615,7 +615,7 @@ class StatusLists(Unit):
     name = "M.status_lists"
     functions = ["orquesta.statuses (module constants)", "orquesta.statuses.is_valid"]
     obligations = {
-        "C02.statuses.lists": {"props": ["C02", "C01", "C03", "C04", "C09", "C10", "C12", "C13"], "text":
+        "C02.statuses.lists": {"props": ["C02", "C01", "C03", "C04", "C09", "C10", "C12", "C13", "C17", "C18"], "text":
             "every status list of orquesta.statuses contains exactly the statuses the lifecycle documents for it (as a set) and every status constant has its documented value"},
         "C02.statuses.tables_closed": {"props": ["C02", "C15"], "text":
             "every status produced by a cell of either table is a row of that table; every event name in a row is a declared event"},
